@@ -624,6 +624,26 @@ pub fn parse_bin_row(m: &[u8], cols: &[ColDef]) -> Result<Vec<Cell>, String> {
     Ok(row)
 }
 
+/// byte range of every non-NULL cell of a binary row (None for NULL cells)
+pub fn bin_cell_ranges(m: &[u8], cols: &[ColDef]) -> Result<Vec<Option<(usize, usize)>>, String> {
+    let n = cols.len();
+    let mut c = Cur::new(m);
+    c.u8()?;
+    let bm = c.take((n + 7 + 2) / 8)?.to_vec();
+    let mut v = Vec::with_capacity(n);
+    for (i, col) in cols.iter().enumerate() {
+        let bit = i + 2;
+        if bm[bit / 8] & (1 << (bit % 8)) != 0 {
+            v.push(None);
+        } else {
+            let a = c.p;
+            parse_bin_value(&mut c, col.ty, col.flags)?;
+            v.push(Some((a, c.p)));
+        }
+    }
+    Ok(v)
+}
+
 #[derive(Clone, Copy, Debug, PartialEq, Eq)]
 pub enum RespKind {
     /// no reply at all
